@@ -265,7 +265,7 @@ Fixpoint elisions (p : val) : list N :=
 Definition elisions_n (p : npat) : list N :=
   match p with
   | PNode v => elisions v
-  | PStmts s e vs => s :: e :: elisions (Slice T_S_ast_Stmt vs)
+  | PStmts s e vs => (if N.eqb s 0 then [] else [s]) ++ e :: elisions (Slice T_S_ast_Stmt vs)
   end.
 
 Definition recorded (p : npat) (ds : list dpos) : list dpos :=
